@@ -1,4 +1,4 @@
-\* MaxReg: 2 replicas, 3 writes from {-2,-1,1,2}, any order, merges
+\* MaxReg: 2 replicas, 3 writes from {-1,0,1,2}, any order, merges
 CONSTANTS
   Kind = "max"
   NReps = 2
